@@ -480,8 +480,10 @@ def validate_frontmatter(
 
     errors: list[ValidationError] = []
 
-    # If frontmatter is absent but schema requires fields, report each required field
-    if raw_frontmatter is None:
+    # If frontmatter is absent but schema requires fields, report each required field.
+    # A whitespace-only block counts as absent: canonicalisation drops it, and the verdict
+    # of a document must not change by canonicalising it (a TAB-only block is not even YAML).
+    if raw_frontmatter is None or not raw_frontmatter.strip():
         for field_name, field_def in schema.frontmatter.items():
             if field_def.required:
                 errors.append(
